@@ -54,12 +54,12 @@ func runC30(outer *testing.T) func(t rapid.TB, h tokensim.History, rec *vx.Case)
 func TestC30(t *testing.T) {
 	vx.Check(t, vx.Prop[tokensim.History]{
 		ID: "C30",
-		Rule: "2-chain worlds with v1+v2+alias links or 3-chain triangles with random link kinds per edge; histories interleave multi-hop route scripts (A->B->C->A, turn-backs), failure scripts (receive disabled, blocked / invalid receiver, timeout by height / time, forged acks, duplicate terminal messages), fan-out scripts and noise (arbitrary sends incl. two-payload v2 packets, relay messages for any packet at stale/fresh heights signed by any account, verbatim duplicates, blocks, time, client updates); " +
+		Rule: "2-chain worlds with v1+v2+alias links or 3-chain triangles with random link kinds per edge; histories interleave multi-hop route scripts (A->B->C->A, turn-backs), failure scripts (receive disabled, blocked / invalid receiver, timeout by height / time, forged acks, duplicate terminal messages), timeout-boundary race scripts (timeout in whole seconds on the 5 s block grid; receive delivered in the destination block whose time == timeout / the one before / after; MsgTimeout proven at exactly that height / -1 / +1 after updating the source client with exactly that header), fan-out scripts and noise (arbitrary sends incl. two-payload v2 packets, relay messages for any packet at stale/fresh heights signed by any account, verbatim duplicates, blocks, time, client updates); " +
 			"non-trivial = at least one delivered multi-hop voucher (a voucher forwarded on to mint a >=2-hop voucher) and at least one refund (error ack or timeout); distinct by full history",
 		MinNTFrac:   0.3,
 		Assumptions: []string{assumeDenoms, "receivers are tracked accounts, an invalid string or a blocked module account; nobody sends to an escrow address (that is a donation, see C31)"},
 		Gen: func(t *rapid.T) tokensim.History {
-			return tokensim.GenHistory(t, tokensim.GenCfg{MaxScripts: 5})
+			return tokensim.GenHistory(t, tokensim.GenCfg{MaxScripts: 5, Race: true})
 		},
 		Run: runC30(t),
 	})
